@@ -43,7 +43,7 @@ def run(chk, tier, replay=None):
         elif v1["verdict"] == "inconclusive":
             out.append((None, v1["why"]))
         out += [(k.replace("C03|", "C22|") if k else k, w) for k, w in judge_history(case, res, prefix)
-                if k != "C03|p_app_private-not-propagated" or True]
+                if k != "tags"]
         if not out:
             enc.cleanup(prefix)
         return case, out, v1.get("frames", 0)
